@@ -4,6 +4,7 @@ the column -> parser table of parse_record, the fields of an inline split refere
 (pos_of, preload_pos, write_pos_table) and the POS table reader (grammar.rs)."""
 import re
 import facts as F
+import shapealpha as SA
 
 
 def q(s):
@@ -38,14 +39,25 @@ def gen():
         # F.strip_comments brings `if !c {A} else {B}` to `if c {B} else {A}`
         if not F.same_shape(F.fn_body(ts, fn_, rel), "check_str_len(data)?;ifUNICODE_LITERAL.is_match(data){%s}else{%s}" % (tail, conv)):
             raise F.FactError("%s changed shape: %r" % (fn_, b))
+    # unescape_slow: the text between the matches is copied, every match is decoded as a hexadecimal scalar value and pushed,
+    # a value that is no char (or no number) is InvalidCharLiteral(digits).  The decoding statement may be spelled with nested
+    # matches, with `.ok().and_then(char::from_u32)` and one match / if-let, or with `ok_or_else(..)?`; bound names are free.
     b = norm_ws(F.fn_body(ts, "unescape_slow", rel))
-    exp = ("letmutresult=String::with_capacity(original.len());letmutstart=0;forcinUNICODE_LITERAL.captures_iter(original){"
-           "letwhole=c.get(0).unwrap();letbraces=c.get(1).or_else(||c.get(2)).unwrap();result.push_str(&original[start..whole.start()]);"
-           "matchu32::from_str_radix(braces.as_str(),16){Ok(c)=>matchchar::from_u32(c){Some(cx)=>result.push(cx),"
-           "None=>returnErr(BuildFailure::InvalidCharLiteral(braces.as_str().to_owned())),},"
-           "Err(_)=>returnErr(BuildFailure::InvalidCharLiteral(braces.as_str().to_owned())),}start=whole.end();}"
-           "result.push_str(&original[start..]);Ok(result)")
-    if not F.same_shape(F.fn_body(ts, "unescape_slow", rel), exp):
+    pre = ("let mut result = String::with_capacity(original.len()); let mut start = 0; for c in UNICODE_LITERAL.captures_iter(original) {"
+           " let whole = c.get(0).unwrap(); let braces = c.get(1).or_else(|| c.get(2)).unwrap(); result.push_str(&original[start..whole.start()]); ")
+    post = " start = whole.end(); } result.push_str(&original[start..]); Ok(result)"
+    err = "Err(BuildFailure::InvalidCharLiteral(braces.as_str().to_owned()))"
+    dec = "u32::from_str_radix(braces.as_str(), 16)"
+    decode = [
+        "match %s { Ok(v) => match char::from_u32(v) { Some(cx) => result.push(cx), None => return %s, }, Err(_) => return %s, }" % (dec, err, err),
+        "let decoded = %s.ok().and_then(char::from_u32); match decoded { Some(cx) => result.push(cx), None => return %s, }" % (dec, err),
+        "let decoded = %s.ok().and_then(|v| char::from_u32(v)); match decoded { Some(cx) => result.push(cx), None => return %s, }" % (dec, err),
+        "match %s.ok().and_then(char::from_u32) { Some(cx) => result.push(cx), None => return %s, }" % (dec, err),
+        "match %s.ok().and_then(|v| char::from_u32(v)) { Some(cx) => result.push(cx), None => return %s, }" % (dec, err),
+        "if let Some(cx) = %s.ok().and_then(char::from_u32) { result.push(cx); } else { return %s; }" % (dec, err),
+        "let cx = %s.ok().and_then(char::from_u32).ok_or_else(|| BuildFailure::InvalidCharLiteral(braces.as_str().to_owned()))?; result.push(cx);" % dec,
+    ]
+    if SA.alpha_any(F.fn_body(ts, "unescape_slow", rel), [pre + d + post for d in decode]) < 0:
         raise F.FactError("unescape_slow changed shape: %r" % b)
     b = norm_ws(F.fn_body(ts, "check_str_len", rel))
     m = re.fullmatch(r"ifdata\.len\(\)(>=|>)MAX_DIC_STRING_LEN\{Err\(BuildFailure::InvalidSize\{expected:MAX_DIC_STRING_LEN,actual:data\.len\(\),\}\)\}else\{Ok\(\(\)\)\}", b)
@@ -60,7 +72,9 @@ def gen():
     # --- numbers and ids
     for fn_, ty, err in (("parse_i16", "i16", "InvalidI16Literal"), ("parse_u32", "u32", "InvalidU32Literal")):
         b = norm_ws(F.fn_body(ts, fn_, rel))
-        if not F.same_shape(F.fn_body(ts, fn_, rel), "match%s::from_str(data){Ok(v)=>Ok(v),Err(_)=>Err(BuildFailure::%s(data.to_owned())),}" % (ty, err)):
+        if SA.alpha_any(F.fn_body(ts, fn_, rel), [
+                "match %s::from_str(data) { Ok(v) => Ok(v), Err(_) => Err(BuildFailure::%s(data.to_owned())), }" % (ty, err),
+                "%s::from_str(data).map_err(|_| BuildFailure::%s(data.to_owned()))" % (ty, err)]) < 0:
             raise F.FactError("%s changed shape: %r" % (fn_, b))
     b = norm_ws(F.fn_body(ts, "parse_dic_form", rel))
     if not F.same_shape(F.fn_body(ts, "parse_dic_form", rel), 'ifdata=="*"{Ok(WordId::INVALID)}else{parse_wordid(data)}'):
@@ -69,8 +83,14 @@ def gen():
     if not F.same_shape(F.fn_body(ts, "parse_wordid", rel), 'ifdata.starts_with("U"){letwid=parse_wordid_raw(&data[1..]);wid.map(|w|WordId::new(1,w.word()))}else{parse_wordid_raw(data)}'):
         raise F.FactError("parse_wordid changed shape: %r" % b)
     b = norm_ws(F.fn_body(ts, "parse_wordid_raw", rel))
-    if not F.same_shape(F.fn_body(ts, "parse_wordid_raw", rel), ("matchu32::from_str(data){Ok(v)=>matchWordId::checked(0,v){Ok(id)=>Ok(id),Err(_)=>Err(BuildFailure::InvalidWordId(data.to_owned())),},"
-             "Err(_)=>Err(BuildFailure::InvalidWordId(data.to_owned())),}")):
+    # parse_wordid_raw: a decimal u32 that WordId::checked(0, .) accepts, every failure is InvalidWordId(data)
+    inv = "BuildFailure::InvalidWordId(data.to_owned())"
+    if SA.alpha_any(F.fn_body(ts, "parse_wordid_raw", rel), [
+            "match u32::from_str(data) { Ok(v) => match WordId::checked(0, v) { Ok(id) => Ok(id), Err(_) => Err(%s), }, Err(_) => Err(%s), }" % (inv, inv),
+            "let invalid = || %s; let raw = u32::from_str(data).map_err(|_| invalid())?; WordId::checked(0, raw).map_err(|_| invalid())" % inv,
+            "let raw = u32::from_str(data).map_err(|_| %s)?; WordId::checked(0, raw).map_err(|_| %s)" % (inv, inv),
+            "match u32::from_str(data) { Ok(v) => WordId::checked(0, v).map_err(|_| %s), Err(_) => Err(%s), }" % (inv, inv),
+            "u32::from_str(data).ok().and_then(|v| WordId::checked(0, v).ok()).ok_or_else(|| %s)" % inv]) < 0:
         raise F.FactError("parse_wordid_raw changed shape: %r" % b)
     for fn_, item in (("parse_wordid_list", "parse_wordid"), ("parse_u32_list", "parse_u32")):
         b = norm_ws(F.fn_body(ts, fn_, rel))
